@@ -64,6 +64,11 @@ func (r *rwRT) ruleFilePasses() {
 					if name == "?" {
 						name = strings.Join(e.Bound, "+")
 					}
+				} else if sy, ok := unwrap(e.Args[2]).(Sym); ok {
+					// the callback is the very value a pass constructor returned
+					name = sy.Name
+				} else if cl, ok := e.Args[2].(Closure); ok && len(cl.Bind) == 0 {
+					name = strings.TrimSuffix(cl.Fn.Name(), "$bound")
 				} else if cl, ok := e.Args[2].(Closure); ok && len(cl.Bind) > 0 {
 					inner := o.St.Obj(cl.Bind[0])
 					var fv AV
@@ -521,12 +526,12 @@ func (r *rwRT) ruleComments() {
 	}
 	in.OnCall = wrapOnCall(in.OnCall, func(cc *CallCtx) []Answer {
 		if cc.Fn != nil && (cc.Fn.Name() == "Inspect" || cc.Fn.Name() == "Walk") && strings.HasSuffix(fnPkgPath(cc.Fn), "go/ast") && len(cc.Args) == 2 {
-			if _, isClo := cc.Args[1].(Closure); isClo {
+			if callee, pre, _, _, ok := r.astVisitCall(cc.Fn.Name(), cc.Args); ok {
 				var inv []Invocation
 				for _, df := range docFields {
 					t := r.astPtr(df.typ)
 					ref := cc.St.alloc(&Obj{T: t.(*types.Pointer).Elem(), Kind: 's', Fields: map[string]AV{df.field: Sym{Name: "grp:" + df.typ + "." + df.field, NN: true}}})
-					inv = append(inv, Invocation{Fn: cc.Args[1], Args: []AV{Dyn{T: t, V: ref}}})
+					inv = append(inv, Invocation{Fn: callee, Args: append(append([]AV{}, pre...), Dyn{T: t, V: ref})})
 				}
 				return []Answer{{Invoke: inv}}
 			}
@@ -571,7 +576,9 @@ func (r *rwRT) ruleComments() {
 			}
 			if e.Kind == "call" && e.Fn != nil && (e.Fn.Name() == "Inspect" || e.Fn.Name() == "Walk") && strings.HasSuffix(fnPkgPath(e.Fn), "go/ast") && len(e.Args) >= 1 {
 				names := map[string]bool{}
-				symNames(o.St, e.Args[0], names, map[int]bool{})
+				for _, a := range e.Args { // the root is the first argument of Inspect and the second of Walk
+					symNames(o.St, a, names, map[int]bool{})
+				}
 				for n := range names {
 					if derivedFrom(n, "f.File") || derivedFrom(n, "f") {
 						collected = true
@@ -636,8 +643,8 @@ func (r *rwRT) ruleComments() {
 				if e.Kind != "call" || e.Fn == nil || (e.Fn.Name() != "Inspect" && e.Fn.Name() != "Walk") || len(e.Args) != 2 {
 					continue
 				}
-				cb, isClo := e.Args[1].(Closure)
-				if !isClo {
+				cb, pre, _, descends, okCall := r.astVisitCall(e.Fn.Name(), e.Args)
+				if !okCall {
 					continue
 				}
 				// (the declarations and their specs are the only directive-carrying nodes: File and GenDecl are on the way)
@@ -645,11 +652,11 @@ func (r *rwRT) ruleComments() {
 					t := r.astPtr(kind)
 					st2 := o.St.clone()
 					ref := st2.alloc(&Obj{T: t.(*types.Pointer).Elem(), Kind: 's', Fields: map[string]AV{}})
-					for _, co := range in.Apply(st2, cb, []AV{Dyn{T: t, V: ref}}) {
+					for _, co := range in.Apply(st2, cb, append(append([]AV{}, pre...), Dyn{T: t, V: ref})) {
 						if co.Panicked || len(co.Ret) != 1 {
 							continue
 						}
-						if b, known := asBool(co.Ret[0]); !known || !b {
+						if !descends(co.Ret[0]) {
 							pruned = "the traversal that collects the doc comments does not descend below ast." + kind + " (the callback answers " + co.Ret[0].String() + "): the comment groups of the nodes underneath are not collected"
 						}
 					}
@@ -761,4 +768,34 @@ func (r *rwRT) ruleNoAPIPkg() {
 		c.check(bad == "" && len(outs) > 0, "RW.ALLFILES", "API package not loaded: "+ent.method, r.w.FnPos(fn),
 			"a tree that does not use the package is passed through without a panic", bad)
 	}
+}
+
+// astVisitCall: how to show one node to the callback of ast.Inspect(node, f) / ast.Walk(visitor, node):
+// the callable, the arguments in front of the node, which argument of the traversal call is the root, and
+// whether a result means "descend".
+func (r *rwRT) astVisitCall(fnName string, args []AV) (callee AV, pre []AV, root AV, descends func(AV) bool, ok bool) {
+	if len(args) != 2 {
+		return nil, nil, nil, nil, false
+	}
+	switch fnName {
+	case "Inspect":
+		if _, isClo := args[1].(Closure); !isClo {
+			return nil, nil, nil, nil, false
+		}
+		return args[1], nil, args[0], func(v AV) bool { b, known := asBool(v); return known && b }, true
+	case "Walk":
+		d, isDyn := args[0].(Dyn)
+		if !isDyn {
+			return nil, nil, nil, nil, false
+		}
+		ms := r.w.Prog.MethodSets.MethodSet(d.T)
+		for i := 0; i < ms.Len(); i++ {
+			if ms.At(i).Obj().Name() == "Visit" {
+				if f := r.w.Prog.MethodValue(ms.At(i)); f != nil {
+					return Closure{Fn: f}, []AV{d.V}, args[1], func(v AV) bool { n, known := nilness(v); return known && !n }, true
+				}
+			}
+		}
+	}
+	return nil, nil, nil, nil, false
 }
